@@ -219,7 +219,13 @@ class Ctx:
             self.known = [k for k in json.load(f)["findings"] if k["property"] == pid]
 
     # ---------------------------------------------------------------- TLC
+    def dbg(self, msg):
+        if os.environ.get("VERIF_DEBUG"):
+            sys.__stderr__.write("[%6.1fs] %s\n" % (time.time() - self.t0, msg))
+            sys.__stderr__.flush()
+
     def _tlc(self, module, cfg, workers, env, timeout, extra, label, to_file=None):
+        self.dbg("TLC %s %s (%s)" % (module, os.path.basename(cfg), label))
         metadir = tempfile.mkdtemp(prefix="meta-", dir=self.tmp)
         gc = ["-XX:+UseSerialGC", "-Xmx3g"] if workers == 1 else ["-XX:+UseParallelGC", "-Xmx8g"]
         cmd = ["java"] + gc + ["-Xss64m", "-cp", TLA_JAR, "tlc2.TLC",
@@ -310,6 +316,7 @@ class Ctx:
             if buf:
                 yield buf
         total = 0
+        self.dbg("replay of %s" % os.path.basename(path))
         with mp.get_context("fork").Pool(procs, initializer=_pool_init, initargs=(func,)) as pool:
             for n, viol, nontriv, samples in pool.imap_unordered(_pool_call, chunks()):
                 if n == "ERR":
